@@ -18,7 +18,7 @@ TRUSTED = ['Coq 8.16.1 kernel + vm_compute', 'harness/p01.py step builders and o
            'Python generator laziness is modelled as function composition on event lists (validated by the trace correspondence of C04-C06)']
 ASSUMES = ['steps are deterministic and user callables do not keep state across runs']
 
-STEP_KINDS = ['add_field', 'row_fn', 'row_ret', 'rows_fn', 'pkg_fn', 'filter', 'set_type', 'rename', 'delete_field', 'sort', 'duplicate',
+STEP_KINDS = ['add_field', 'row_fn', 'row_ret', 'rows_peek', 'rows_fn', 'pkg_fn', 'filter', 'set_type', 'rename', 'delete_field', 'sort', 'duplicate',
               'concat', 'unpivot', 'dedup', 'find_replace', 'add_computed', 'delete_res', 'update_resource', 'printer']
 WRAPS = ['function', 'lambda', 'method', 'partial', 'object']
 
@@ -111,6 +111,18 @@ def _row_ret(row, k):
     row['v'] = row['v'] + k
 
 
+def _rows_peek(rows, k):
+    # reads its resource in two passes: looks at the first row, then goes on with the rest
+    first = None
+    for r in rows:
+        first = r
+        break
+    if first is not None:
+        yield dict(first, s=first['s'] + 'P%d' % k)
+    for r in rows:
+        yield r
+
+
 def _rows(rows, k):
     for r in rows:
         r['s'] = r['s'] + str(k)
@@ -155,6 +167,8 @@ def mk_step(st, idx):
     t, k = st['t'], st['arg']
     if t in ('row_fn', 'rows_fn', 'pkg_fn'):
         return wrap(t, k, st['wrap'])
+    if t == 'rows_peek':
+        return lambda rows: _rows_peek(rows, k)
     if t == 'row_ret':
         return (lambda row: _row_ret(row, k)) if st['wrap'] != 'partial' else functools.partial(lambda k_, row: _row_ret(row, k_), k)
     if t == 'add_field':
@@ -234,7 +248,7 @@ def run_stepwise(sizes, mk_steps, late=False, kinds=None):
                     new.append(cur)
                 rows = new
                 continue
-            if kind == 'rows_fn':
+            if kind in ('rows_fn', 'rows_peek'):
                 rows = [[copy.deepcopy(dict(r)) for r in step(iter(copy.deepcopy(rs)))] for rs in rows]
                 continue
             src = DF.DataStream(Package(copy.deepcopy(dp)),
